@@ -126,10 +126,15 @@ func (this *Conn) NodeIds() []uint64 {
 
 func (this *Conn) AddNode(id uint64, address string) {
 	this.addressesMu.Lock()
-	defer this.addressesMu.Unlock()
-
-	if _, exists := this.addresses[id]; !exists {
+	_, exists := this.addresses[id]
+	if !exists {
 		this.addresses[id] = address
+	}
+	this.addressesMu.Unlock()
+
+	// Subscribers read the address book while handling a notification: do not
+	// block on a full subscription while holding addressesMu
+	if !exists {
 		this.sendNodesChangeNotification(&nodesChange {
 			Type: NodesChangeAddNode,
 			NodeId: id,
@@ -139,25 +144,33 @@ func (this *Conn) AddNode(id uint64, address string) {
 }
 
 func (this *Conn) RemoveNode(id uint64) {
+	if !this.forgetNode(id) {
+		return
+	}
+	this.sendNodesChangeNotification(&nodesChange {
+		Type: NodesChangeRemoveNode,
+		NodeId: id,
+	})
+	this.log.Infof("Conn: Removed node: %16x", id)
+}
+
+func (this *Conn) forgetNode(id uint64) bool {
 	this.addressesMu.Lock()
 	defer this.addressesMu.Unlock()
 	this.connsMu.Lock()
 	defer this.connsMu.Unlock()
 
-	if _, exists := this.addresses[id]; exists {
-		delete(this.addresses, id)
-		if conn, exists := this.conns[id]; exists {
-			if err := conn.Close(); err != nil {
-				log.Error(err)
-			}
-			delete(this.conns, id)
-		}
-		this.sendNodesChangeNotification(&nodesChange {
-			Type: NodesChangeRemoveNode,
-			NodeId: id,
-		})
-		this.log.Infof("Conn: Removed node: %16x", id)
+	if _, exists := this.addresses[id]; !exists {
+		return false
 	}
+	delete(this.addresses, id)
+	if conn, exists := this.conns[id]; exists {
+		if err := conn.Close(); err != nil {
+			log.Error(err)
+		}
+		delete(this.conns, id)
+	}
+	return true
 }
 
 func (this *Conn) Dial(id uint64) (*grpc.ClientConn, error) {
